@@ -8,3 +8,5 @@ for pid in "$@"; do
 done
 cd /repo && git checkout -q -- . && git status --short | head -3
 rm -f /verif/evidence/replay/*.json
+# evidence written while the seeded change was applied must not survive
+cd /verif && git checkout -q -- evidence
